@@ -230,6 +230,14 @@ func c17StageCases(t *testing.T, r *rec.Rec) {
 				m = big.NewInt(1)
 			}
 		}
+		if rapid.IntRange(0, 7).Draw(rt, "near_r") == 0 {
+			// encodings just below the BN254 modulus: x = r - j (a check of a shifted or scaled value wraps there)
+			j := genBigBelow(pow2(uint(rapid.IntRange(1, 34).Draw(rt, "jbits")))).Draw(rt, "j")
+			x := new(big.Int).Sub(bigR, big.NewInt(1))
+			x.Sub(x, j)
+			v = new(big.Int).Mod(x, bigP)
+			m = new(big.Int).Div(new(big.Int).Sub(x, v), bigP)
+		}
 		mode := rapid.SampledFrom([]int{int(eng.ModeNative), int(eng.ModeNative), int(eng.ModePlain)}).Draw(rt, "mode")
 		c := c17StageCase{Base: base, K: 1, Leaf: s.leaves[li].Name, Residue: v.String(), M: m.String(), Mode: mode}
 		viol, d, info := c17StageRun(c)
@@ -251,7 +259,7 @@ func c17StageCases(t *testing.T, r *rec.Rec) {
 func TestC17(t *testing.T) {
 	r := rec.New("C17")
 	defer r.Flush()
-	r.Rule("every Goldilocks-valued proof leaf position (schema walk of the proof: openings, initial-tree leaf elements, step evaluations, final-polynomial coefficients, PoW witness; ~10.9k per proof) of the listed instances x offset k*p for k in {1, 2, 2^64, largest k keeping the value < r}; deterministic enumeration sharded by position (quick: on A1 every position outside the query rounds, every position of query rounds 0, 13 and 27 and every 5th position of the other rounds with k=1; every 7th position of B1 and every 23rd of the others with a rotating offset; thorough: all positions x all four offsets x all five proofs; plus the positions outside the query rounds of proofs checked against a description with the proof-of-work difficulty lowered to 0/1/8).  Additionally one position of every leaf kind is re-encoded on the whole circuit compiled to R1CS with the commit range checker (one query round) and handed to gnark's solver.  Oracle: whole VerifierCircuit must not ACCEPT (candidates re-checked under bit decomposition).  Additionally (stage check) the verifier's canonical-form stage alone (first step of Verify) on A1/B1 with one rapid-drawn position holding a generated residue (edge-heavy: 0, 1, <2^32, around 2^31/2^32/2^63, just below p, uniform) -- canonical encoding must be ACCEPTED with the shipped hints, residue + m*p (m in {1, 2..9, 2^j, largest, random}) must be REJECTED.  Every case is non-trivial (offset >= p changes the encoding, not the residue); distinct = (instance, leaf, offset[, residue]).")
+	r.Rule("every Goldilocks-valued proof leaf position (schema walk of the proof: openings, initial-tree leaf elements, step evaluations, final-polynomial coefficients, PoW witness; ~10.9k per proof) of the listed instances x offset k*p for k in {1, 2, 2^64, largest k keeping the value < r}; deterministic enumeration sharded by position (quick: on A1 every position outside the query rounds, every position of query rounds 0, 13 and 27 and every 5th position of the other rounds with k=1; every 7th position of B1 and every 23rd of the others with a rotating offset; thorough: all positions x all four offsets x all five proofs; plus the positions outside the query rounds of proofs checked against a description with the proof-of-work difficulty lowered to 0/1/8).  Additionally one position of every leaf kind is re-encoded on the whole circuit compiled to R1CS with the commit range checker (one query round) and handed to gnark's solver.  Oracle: whole VerifierCircuit must not ACCEPT (candidates re-checked under bit decomposition).  Additionally (stage check) the verifier's canonical-form stage alone (first step of Verify) on A1/B1 with one rapid-drawn position holding a generated residue (edge-heavy: 0, 1, <2^32, around 2^31/2^32/2^63, just below p, uniform) -- canonical encoding must be ACCEPTED with the shipped hints, residue + m*p (m in {1, 2..9, 2^j, largest, random}; also encodings r-1-j just below the BN254 modulus) must be REJECTED.  Every case is non-trivial (offset >= p changes the encoding, not the residue); distinct = (instance, leaf, offset[, residue]).")
 	r.Assume("engine native flavour has exact range-check semantics (C06)", "the range-check sweep is evaluated before anything else, so a rejected case costs milliseconds")
 
 	var rp c17Case
